@@ -81,6 +81,15 @@ Proof.
 Qed.
 Print Assumptions C04_full_run_active_state_follows_accepted_attempts.
 
+(* link between the assembled loop and the event-log model: the active state after the first i+1 passes of Traj.run is the
+   (i+1)-th entry of the active column that Events.run_from builds from the same attempts - so C04_events_match_trace
+   (changes of that column = hop events, one frustrated event per rejection, no others) speaks about the loop itself *)
+Theorem C04_full_run_active_column : forall n m dt poisson (ds : list (sdata (T:=R))) (s sf : tstate (T:=R)) atts k i d,
+  run ROps n m dt poisson ds s = (sf, atts) -> (i < length ds)%nat ->
+  pact (fst (run ROps n m dt poisson (firstn (S i) ds) s)) = nth i (fst (run_from k (pact s) (map toatt atts))) d.
+Proof. intros n m dt poisson ds s sf atts k i d H Hi. exact (run_active_column n m dt poisson ds s sf atts k i d H Hi). Qed.
+Print Assumptions C04_full_run_active_column.
+
 Example C04_witness :
   attempts_ok 0 [NoAttempt; Attempt 1 true; Attempt 0 false; Attempt 0 true] = true
   /\ run_from 0 0 [NoAttempt; Attempt 1 true; Attempt 0 false; Attempt 0 true]
